@@ -34,7 +34,7 @@ Proof.
     assert (Hev : N.even d = true).
     { assert (He : N.even (d * s) = true).
       { destruct H as [q Hq]. rewrite Hq. rewrite N.even_mul, N.even_mul. change (N.even 2) with true. cbn [orb]. apply orb_true_r. }
-      rewrite N.even_mul in He. rewrite <- N.negb_odd in He. rewrite Hs in He. cbn [negb orb] in He.
+      rewrite N.even_mul in He. rewrite <- (N.negb_odd s) in He. rewrite Hs in He. cbn [negb] in He.
       now rewrite orb_false_r in He. }
     apply N.even_spec in Hev. destruct Hev as [d' ->].
     apply N.mul_divide_mono_l. apply IHlg.
@@ -95,7 +95,7 @@ Proof.
   { exists (b / size - a / size).
     pose proof (N.div_mod a size ltac:(lia)) as Ha. pose proof (N.div_mod b size ltac:(lia)) as Hb.
     assert (a / size <= b / size) by (apply N.div_le_mono; lia).
-    rewrite N.mul_sub_distr_r. rewrite (N.mul_comm (b / size)), (N.mul_comm (a / size)).
+    rewrite N.mul_sub_distr_r. Show. rewrite (N.mul_comm (b / size)), (N.mul_comm (a / size)).
     set (qa := size * (a / size)) in *. set (qb := size * (b / size)) in *. lia. }
   apply (pow2_divide_odd _ (stride_odd x)) in Hdiv.
   destruct (N.eq_dec (m - n) 0) as [E|E]; [lia|].
